@@ -28,6 +28,11 @@ def gen_case(seed, k, cap):
         # rank-edge flavour: many fields, ignored ones in front, explicit ranks inside the range of the default ranks
         td = G.random_type(rng, ts, G.Opts(p_attr=0.9, max_fields=6, max_variants=3, min_fields=4, p_partial=0.2, p_rank_edge=1.0,
                                            p_uniform=0.6))
+    elif rng.random() < 0.12:
+        # no field is compared by the built-in trait (custom method or ignored): the variant is still compared, and
+        # two values of one variant by their fields
+        td = G.random_type(rng, ts, G.Opts(p_attr=0.9, max_fields=4, max_variants=4, min_fields=0, p_partial=0.3, all_method=True,
+                                           kind=rng.choice(["enum", "enum", "struct"])))
     else:
         td = G.random_type(rng, ts, G.Opts(p_attr=0.9, max_fields=5, max_variants=4, min_fields=0, p_partial=0.5))
     text = S.render(td, rng_for(seed, PROP, "spell", k), extras=False)
